@@ -24,7 +24,7 @@ DET_K = 3
 SELFTEST = {'quick': 12, 'thorough': 96}
 REQUIRED_PROBES = ['kind_roundtrip', 'kind_restart', 'kind_params', 'kind_driver', 'resumed_from_checkpoint', 'budget_stopped_early', 'leg1_aborted', 'first_restart_iteration_is_save_step', 'restart_on_different_grid', 'time_7plus_digits', 'save_interval_1', 'explicit_rp', 'driver_without_folder_argument', 'kind_twojobs']
 RULE = ("Every check: in 12% of the cases one or two bystander ranks share the simulated job and the code under test runs on world.Split(...); one case in HASHSEED_EVERY is re-run in fresh interpreters under other string-hash seeds and every rank's trace (collectives, data sent, result) must agree. "
-        'Also: writes and loads reached through save / layout change / restore (30%), checkpoints rewritten under the same name (20%), name conventions with an underscore, file time stamps from the simulated clock of the last closing rank, a scheduling point before the close of every written file. '
+        'Also: writes and loads reached through save / layout change / restore (30%), checkpoints rewritten under the same name (20%), name conventions with an underscore, file time stamps from the simulated clock of the last closing rank, a scheduling point before the close of every written file, velocity / r / z domains that are not the default ones through restarts, the coordinates of the restarted grid compared with those of the writing run. '
         'case kinds (swarm-weighted): twojobs = the world split into two jobs that set up, call setupSave without a folder name in the same working directory at the same time, write a checkpoint and restart from their folder (a job refused loudly because it lost the race for a name is skipped; otherwise each must find its own parameters and field); roundtrip = a Grid on random orderings/shape/dtype written with '
         'writeH5Dataset on process grid P1 (several times, layouts and name conventions) and loaded with '
         'loadFromFile on a different process grid P2, file content checked with serial h5py; restart = '
